@@ -92,7 +92,7 @@ func ruleUnwrap(rule string) RuleFn {
 				if r, ok := in.(*ssa.Return); ok {
 					nret++
 					s := an.Norm(an.Resolve(r.Results[0]))
-					if !(strings.HasPrefix(s, "φ") || strings.Contains(s, "new:de") || s == "p:err") {
+					if !(strings.HasPrefix(s, "φ") || strings.Contains(s, "new:") || s == "p:err") {
 						good = false
 					}
 				}
